@@ -209,7 +209,7 @@ def scratch_scopes(ctx, rule):
     for sc in find_scopes(ctx):
         if sc.body.id not in reach:
             continue
-        if sc.cell[0] == "tls" and sc.cell[1].rsplit("::", 1)[-1] in PRIMARY_TLS_SUFFIXES:
+        if sc.cell[0] == "tls" and sc.cell[1] in ctx.model.registries():
             continue
         if sc.via == "&mut self":
             # only fields that this body (or its callees) really mutate
